@@ -14,7 +14,9 @@ use serde_json::{json, Map, Value};
 use std::path::Path;
 use std::process::Command;
 
-const FLAGS: &str = "-Zmiri-preemption-rate=0.1 -Zmiri-disable-isolation";
+// Isolation stays ON: clock, randomness (hash keys) and environment are Miri's own, derived from the
+// seed, so that one seed is one exactly repeatable execution whatever the host process looks like.
+const FLAGS: &str = "-Zmiri-preemption-rate=0.1";
 
 fn miri_dir() -> std::path::PathBuf {
     coord::verif_root().join("miri")
